@@ -6,7 +6,7 @@ From Flocq Require Import Core.Core IEEE754.BinarySingleNaN.
 From Flocq Require IEEE754.PrimFloat.
 From Verif Require Import Common.Base Common.Tactics Strconv.Model Strconv.FModel Strconv.IntProofs Strconv.NumProofs
   Strconv.DecProofs Strconv.ScanProofs Strconv.FloatProofs Strconv.DecSideProofs Strconv.AccuracyProofs
-  Strconv.AFProofs Strconv.AFShape Gen.Tables.
+  Strconv.AFProofs Strconv.AFLitProofs Strconv.AFShape Gen.Tables.
 Open Scope Z_scope.
 #[local] Existing Instance Flocq.IEEE754.PrimFloat.Hprec.
 #[local] Existing Instance Flocq.IEEE754.PrimFloat.Hmax.
@@ -275,4 +275,102 @@ Proof.
   destruct (append_float_shape_proof b spare (S754_finite s m e) prec Hv) as [_ Hsh].
   specialize (Hsh eq_refl). cbv zeta in Hsh. rewrite Hneg in Hsh. fold g in Hsh.
   apply Hsh. lia.
+Qed.
+
+(* ---- the number the written literal denotes ------------------------------------------------------------------------------ *)
+
+(* the value of  -?(digits[.digits]|.digits)[e-?digits]  read as a decimal literal: the digits of the integer part and
+   the fraction as one integer, scaled by 10^(exponent - number of fraction digits), negated after '-' *)
+Definition lit_value (out : list Z) : R :=
+  let me := lit_mant_exp (lit_body out) in
+  let v := (IZR (fst me) * Rp10 (snd me))%R in
+  if lit_neg out then (- v)%R else v.
+
+(* "-12.50e-3" = -1250 * 10^(-3-2);  ".5" = 5 * 10^-1;  "120" = 120 *)
+Example lit_value_ex :
+  lit_mant_exp (lit_body [45; 49; 50; 46; 53; 48; 101; 45; 51]) = (1250, -5) /\ lit_neg [45; 49; 50; 46; 53; 48; 101; 45; 51] = true /\
+  lit_mant_exp (lit_body [46; 53]) = (5, -1) /\ lit_mant_exp (lit_body [49; 50; 48]) = (120, 0).
+Proof. repeat split; reflexivity. Qed.
+
+(* on the parts of a literal *)
+Lemma lit_value_parts (neg : bool) ip fp ex : all_digits ip -> all_digits fp ->
+  (ex = [] \/ exists ds, all_digits ds /\ ds <> [] /\ (ex = 101 :: ds \/ ex = 101 :: 45 :: ds)) ->
+  (ip <> [] \/ fp <> []) ->
+  lit_value ((if neg then [45] else []) ++ ip ++ (match fp with [] => [] | _ => 46 :: fp end) ++ ex) =
+  ((if neg then -1 else 1) * IZR (dec_value (ip ++ fp)) * Rp10 (exp_value ex - len fp))%R.
+Proof.
+  intros Hip Hfp Hex Hne.
+  assert (Hexp : exp_part ex) by (destruct Hex as [->|(ds & _ & _ & [-> | ->])]; [left; reflexivity|right; eauto|right; eauto]).
+  set (hasdot := match fp with [] => false | _ => true end).
+  assert (Hdot : (match fp with [] => [] | _ => 46 :: fp end) = if hasdot then 46 :: fp else []) by (unfold hasdot; destruct fp; reflexivity).
+  assert (Hnd : hasdot = false -> fp = []) by (unfold hasdot; destruct fp; [reflexivity|discriminate]).
+  rewrite Hdot.
+  assert (Hhead : lit_neg (ip ++ (if hasdot then 46 :: fp else []) ++ ex) = false).
+  { destruct ip as [|c ip'].
+    - destruct Hne as [H|H]; [contradiction|]. unfold hasdot. destruct fp; [contradiction|reflexivity].
+    - inversion Hip as [|? ? Hc _]; subst. apply is_digit_range in Hc. cbn [app lit_neg]. lia. }
+  unfold lit_value. destruct neg.
+  - cbn [app]. change (lit_neg (45 :: ip ++ (if hasdot then 46 :: fp else []) ++ ex)) with true.
+    change (lit_body (45 :: ip ++ (if hasdot then 46 :: fp else []) ++ ex)) with (ip ++ (if hasdot then 46 :: fp else []) ++ ex).
+    rewrite (lit_mant_exp_parts ip fp ex hasdot Hip Hfp Hexp Hnd). cbn [fst snd]. lra.
+  - cbn [app]. unfold lit_body. rewrite Hhead. rewrite (lit_mant_exp_parts ip fp ex hasdot Hip Hfp Hexp Hnd). cbn [fst snd]. lra.
+Qed.
+
+Lemma lit_value_of_pair out (neg : bool) q t0 bb prec mant : lit_neg out = neg -> 0 <= t0 -> 0 <= bb -> mant = q * 10 ^ t0 ->
+  lit_mant_exp (lit_body out) = (q * 10 ^ bb, t0 - prec - bb) ->
+  lit_value out = ((if neg then - IZR mant else IZR mant) * Rp10 (- prec))%R.
+Proof.
+  intros Hneg Ht Hb Hm Hp. unfold lit_value. rewrite Hneg, Hp. cbn [fst snd].
+  assert (E : (IZR (q * 10 ^ bb) * Rp10 (t0 - prec - bb) = IZR mant * Rp10 (- prec))%R).
+  { rewrite Hm, !mult_IZR, <- !Rp10_nonneg by lia. rewrite !Rmult_assoc, <- !Rp10_add. f_equal. f_equal. lia. }
+  destruct neg; rewrite E; lra.
+Qed.
+
+(* AppendFloat on the normal float64: the literal written parses back to the argument within the requested digits *)
+Theorem append_float_parse_back_proof : forall b spare f prec, valid_binary 53 1024 f = true -> f_normal f = true ->
+  let neg := flt f fzero in
+  let g := if neg then fneg f else f in
+  let p' := af_prec g prec in
+  let mant := af_mant g prec in
+  0 <= mant < 10 ^ 19 /\
+  exists out, append_float b spare f prec = Ok (b ++ out) /\
+              (mant = 0 -> out = [48]) /\ (0 < mant -> float_literal neg out) /\
+              lit_value out = ((if neg then - IZR mant else IZR mant) * Rp10 (- p'))%R /\
+              (Rabs (lit_value out - SF2R radix2 f) <= Rp10 (- p') + 5 * uu * Rabs (SF2R radix2 f))%R.
+Proof.
+  intros b spare f prec Hv Hn.
+  destruct (append_float_normal_proof b spare f prec Hv Hn) as (Hm & Hval & _). cbv zeta in *.
+  set (neg := flt f fzero) in *. set (g := if neg then fneg f else f) in *.
+  set (p' := af_prec g prec) in *. set (mant := af_mant g prec) in *.
+  split; [exact Hm|].
+  assert (Hvg : valid_binary 53 1024 g = true) by (unfold g; destruct neg; [apply valid_fneg|]; exact Hv).
+  pose proof (af_prec_range g prec Hvg) as Hp. fold p' in Hp.
+  assert (Hfin : f_is_nan f || f_is_inf f = false) by (destruct f; try discriminate; reflexivity).
+  assert (Happ : append_float b spare f prec = af_print b spare neg mant p').
+  { unfold append_float. rewrite Hfin. reflexivity. }
+  (* the sign of f *)
+  assert (Hsgn : SF2R radix2 f = (if neg then - Rabs (SF2R radix2 f) else Rabs (SF2R radix2 f))%R).
+  { destruct f as [s0|s0| |s m e]; try discriminate. unfold neg. destruct s.
+    - change (flt (S754_finite true m e) fzero) with true. cbv iota.
+      assert (SF2R radix2 (S754_finite true m e) < 0)%R by (cbn [SF2R]; apply F2R_lt_0; reflexivity).
+      rewrite Rabs_left by exact H. lra.
+    - change (flt (S754_finite false m e) fzero) with false. cbv iota.
+      assert (0 < SF2R radix2 (S754_finite false m e))%R by (cbn [SF2R]; apply F2R_gt_0; reflexivity).
+      rewrite Rabs_pos_eq by lra. reflexivity. }
+  assert (Hfinish : forall out, lit_value out = ((if neg then - IZR mant else IZR mant) * Rp10 (- p'))%R ->
+            (Rabs (lit_value out - SF2R radix2 f) <= Rp10 (- p') + 5 * uu * Rabs (SF2R radix2 f))%R).
+  { intros out ->. rewrite Hsgn at 1. destruct neg.
+    - replace (- IZR mant * Rp10 (- p') - - Rabs (SF2R radix2 f))%R with (- (IZR mant * Rp10 (- p') - Rabs (SF2R radix2 f)))%R by ring.
+      rewrite Rabs_Ropp. exact Hval.
+    - exact Hval. }
+  destruct (Z.eq_dec mant 0) as [E0|E0].
+  - exists [48]. rewrite Happ. unfold af_print. rewrite E0. change (0 =? 0) with true. cbv iota.
+    split; [reflexivity|]. split; [reflexivity|]. split; [lia|].
+    assert (Hlv : lit_value [48] = ((if neg then - IZR 0 else IZR 0) * Rp10 (- p'))%R).
+    { unfold lit_value. cbn. destruct neg; lra. }
+    split; [exact Hlv|]. rewrite <- E0 in Hlv. apply Hfinish. exact Hlv.
+  - destruct (af_print_value_proof b spare neg mant p' ltac:(lia) Hp) as (out & Hout & Hlit & Hneg & q & t0 & bb & Ht0 & Hbb & Hq & Hpair).
+    exists out. rewrite Happ. split; [exact Hout|]. split; [lia|]. split; [intros _; exact Hlit|].
+    pose proof (lit_value_of_pair out neg q t0 bb p' mant Hneg Ht0 Hbb Hq Hpair) as Hlv.
+    split; [exact Hlv|apply Hfinish; exact Hlv].
 Qed.
